@@ -18,9 +18,11 @@ export SY_REPO="$ISO/repo" CARGO_NET_OFFLINE=true
 git -C "$ISO/repo" apply --check "$OUT/patch.diff" 2>/dev/null || { echo "PATCH-DOES-NOT-APPLY"; exit 2; }
 git -C "$ISO/repo" apply "$OUT/patch.diff"
 build() { (cd "$ISO/repo" && RUSTFLAGS="--cfg nijaru_sy_verif" CARGO_TARGET_DIR="$ISO/verif/.build/target" cargo build --offline --bins 2>&1 | grep -E "^error" -A6 | head -20); }
+# round 3 demos take the repository root as $1, round 4 demos the binary itself (DEMO_BIN=1)
+DEMO_ARG="$ISO/fakeroot"; [ -n "$DEMO_BIN" ] && DEMO_ARG="$ISO/fakeroot/target/debug/sy"
 mkdir -p "$ISO/fakeroot"; ln -sfn "$ISO/verif/.build/target" "$ISO/fakeroot/target"
 build
-echo "== demo with change"; (cd "$ISO/fakeroot" && timeout 1500 bash "$OUT/demo.sh" "$ISO/fakeroot" >"$ISO/demo_with.log" 2>&1); d1=$?; echo "demo rc=$d1"; tail -3 "$ISO/demo_with.log" | cut -c1-200
+echo "== demo with change"; (cd "$ISO/fakeroot" && timeout 1500 bash "$OUT/demo.sh" "$DEMO_ARG" >"$ISO/demo_with.log" 2>&1); d1=$?; echo "demo rc=$d1"; tail -3 "$ISO/demo_with.log" | cut -c1-200
 echo "== test suite with change"; "$ISO/verif/tools/baseline.sh" | tail -4; 
 res=""
 for p in "$@"; do
@@ -39,7 +41,7 @@ PY
 done
 git -C "$ISO/repo" checkout -- .
 build
-echo "== demo without change"; (cd "$ISO/fakeroot" && timeout 1500 bash "$OUT/demo.sh" "$ISO/fakeroot" >"$ISO/demo_without.log" 2>&1); d0=$?; echo "demo rc=$d0"
+echo "== demo without change"; (cd "$ISO/fakeroot" && timeout 1500 bash "$OUT/demo.sh" "$DEMO_ARG" >"$ISO/demo_without.log" 2>&1); d0=$?; echo "demo rc=$d0"
 python3 - "$id" "$d1" "$d0" "$res" <<'PY'
 import json,sys,os
 id,d1,d0,res=sys.argv[1:5]
